@@ -59,7 +59,7 @@ type apiWorld struct {
 }
 
 var apiTexts = map[string]string{
-	"docObj":        `{"a":{"b":[1,{"c":"<x>"}],"n":null},"k":1.0,"z":"s"}`,
+	"docObj":        `{"a":{"b":[1,{"c":"<x>"}],"n":null},"k":1.0,"z":"s","<t&>":{"\u2028":1}}`,
 	"docArr":        ` [ {"a": 1}, [2, 3], "t" ] `,
 	"docBad":        `{"a":[1,}`,
 	"docNum":        `17`,
@@ -75,6 +75,9 @@ var apiTexts = map[string]string{
 	"mp1":           `{"a":{"b":null,"new":{"x":null,"y":[1,{"q":null}]}},"z":null,"k":2}`,
 	"mp2":           `{"a":{"n":5},"k":null,"m":[1]}`,
 	"mpArr":         `[{"a":null}]`,
+	"mpScalar":      "  7",
+	"mpNullDoc":     ` null`,
+	"rootPatchS":    `[{"op":"replace","path":"","value":{"<k>":"&","o":{"<":1}}}]`,
 	"tgtObj":        `{"a":{"b":[1,{"c":"<x>"}]},"k":1.00,"added":{"u":"é"}}`,
 	"arrA":          `[{"a":1},{"b":{"c":2}}]`,
 	"arrB":          `[{"a":2},{"b":{"c":2,"d":null}}]`,
@@ -106,6 +109,16 @@ func newAPIWorld() *apiWorld {
 	w.snaps["deepOpen"] = string(w.bufs["deepOpen"])
 	w.bufs["deepOver"] = []byte(strings.Repeat("[", 10001) + strings.Repeat("]", 10001))
 	w.snaps["deepOver"] = string(w.bufs["deepOver"])
+	big := func(n int, tail string) string {
+		var sb strings.Builder
+		sb.WriteString(`{"pad":"`)
+		sb.WriteString(strings.Repeat("x", 5000))
+		sb.WriteString(`","n":` + fmt.Sprint(n) + tail)
+		return sb.String()
+	}
+	for k, t := range map[string]string{"bigA": big(1, "}"), "bigB": big(2, "}"), "bigBad": big(1, ",}")} {
+		w.bufs[k], w.snaps[k] = []byte(t), t
+	}
 	B := func(k string) []byte { return w.bufs[k] }
 	opt := func() *v5.ApplyOptions {
 		o := v5.NewApplyOptions()
@@ -143,6 +156,9 @@ func newAPIWorld() *apiWorld {
 		{"MergePatch(docObj,mpArr)", false, func(w *apiWorld) ([]byte, error) { return v5.MergePatch(B("docObj"), B("mpArr")) }},
 		{"MergePatch(docArr,mp2)", false, func(w *apiWorld) ([]byte, error) { return v5.MergePatch(B("docArr"), B("mp2")) }},
 		{"MergePatch(docBad,mp1) [malformed]", false, func(w *apiWorld) ([]byte, error) { return v5.MergePatch(B("docBad"), B("mp1")) }},
+		{"MergePatch(docObj,mpScalar) [scalar patch with leading blanks]", false, func(w *apiWorld) ([]byte, error) { return v5.MergePatch(B("docObj"), B("mpScalar")) }},
+		{"MergePatch(null,mp1) [null document: rejected]", false, func(w *apiWorld) ([]byte, error) { return v5.MergePatch(B("mpNullDoc"), B("mp1")) }},
+		{"MergeMergePatches(null,mp2) [rejected]", false, func(w *apiWorld) ([]byte, error) { return v5.MergeMergePatches(B("mpNullDoc"), B("mp2")) }},
 		{"MergeMergePatches(mp1,mp2)", false, func(w *apiWorld) ([]byte, error) { return v5.MergeMergePatches(B("mp1"), B("mp2")) }},
 		{"CreateMergePatch(docObj,tgtObj)", true, func(w *apiWorld) ([]byte, error) { return v5.CreateMergePatch(B("docObj"), B("tgtObj")) }},
 		{"CreateMergePatch(arrA,arrB)", true, func(w *apiWorld) ([]byte, error) { return v5.CreateMergePatch(B("arrA"), B("arrB")) }},
@@ -155,6 +171,12 @@ func newAPIWorld() *apiWorld {
 		{"Ps.ApplyWithOptions(docS, SHARED opts limit=12)", true, func(w *apiWorld) ([]byte, error) {
 			return w.patches["patchS"].ApplyWithOptions(B("docS"), w.sharedOptS)
 		}},
+		{"ProotS.ApplyWithOptions(docS, noescape) [root replaced]", true, func(w *apiWorld) ([]byte, error) {
+			o := opt()
+			o.EscapeHTML = false
+			return w.patches["rootPatchS"].ApplyWithOptions(B("docS"), o)
+		}},
+		{"ProotS.Apply(docS) [root replaced]", true, func(w *apiWorld) ([]byte, error) { return w.patches["rootPatchS"].Apply(B("docS")) }},
 		{"Ps.ApplyIndent(docS)", true, func(w *apiWorld) ([]byte, error) { return w.patches["patchS"].ApplyIndent(B("docS"), " ") }},
 		{"DecodePatch(patchS)+Apply(docS)", true, func(w *apiWorld) ([]byte, error) {
 			p, err := v5.DecodePatch(B("patchS"))
@@ -202,11 +224,13 @@ func newAPIWorld() *apiWorld {
 		}},
 		{"Pneg.ApplyIndent(docArr)", true, func(w *apiWorld) ([]byte, error) { return w.patches["patchNeg"].ApplyIndent(B("docArr"), "\t") }},
 		{"Pneg.Apply(docArr)", true, func(w *apiWorld) ([]byte, error) { return w.patches["patchNeg"].Apply(B("docArr")) }},
+		{"CreateMergePatch(bigA,bigB) [5 KB documents]", true, func(w *apiWorld) ([]byte, error) { return v5.CreateMergePatch(B("bigA"), B("bigB")) }},
+		{"CreateMergePatch(bigBad,bigB) [5 KB, first malformed]", true, func(w *apiWorld) ([]byte, error) { return v5.CreateMergePatch(B("bigBad"), B("bigB")) }},
 		{"legacy Lp.Apply(docObj)", false, func(w *apiWorld) ([]byte, error) { return w.lpatch.Apply(B("docObj")) }},
 		{"legacy MergePatch(docObj,mp1)", false, func(w *apiWorld) ([]byte, error) { return v4.MergePatch(B("docObj"), B("mp1")) }},
 	}
 	for i, c := range w.calls {
-		if !strings.Contains(c.Name, "docS") && !strings.Contains(c.Name, "patchS") && !strings.Contains(c.Name, "eqS1") && !strings.HasPrefix(c.Name, "Ps.") {
+		if !strings.Contains(c.Name, "docS") && !strings.Contains(c.Name, "patchS") && !strings.Contains(c.Name, "eqS1") && !strings.HasPrefix(c.Name, "Ps.") && !strings.HasPrefix(c.Name, "ProotS.") && !strings.HasPrefix(c.Name, "CreateMergePatch(big") {
 			w.menu = append(w.menu, i)
 		}
 	}
@@ -276,7 +300,7 @@ func decodeOnly(b []byte) ([]byte, error) {
 }
 
 func (w *apiWorld) decodePatches() {
-	for _, k := range []string{"patchOK", "patchArr", "patchTst", "patchNeg", "patchCopyFail", "patchCopyBig", "patchS", "patchTstS"} {
+	for _, k := range []string{"patchOK", "patchArr", "patchTst", "patchNeg", "patchCopyFail", "patchCopyBig", "patchS", "patchTstS", "rootPatchS"} {
 		p, err := v5.DecodePatch([]byte(apiTexts[k])) // from a private copy: the Patch must not alias a shared buffer
 		if err != nil {
 			panic("harness patch " + k + ": " + err.Error())
